@@ -290,6 +290,45 @@ def gancestor(rng):
     return {'defs': defs, 'cells': [], 'ops': ops, 'mode': 'ancestor%d' % depth}
 
 
+def gshared(rng):
+    """a routine W that waits several times is driven by DIFFERENT played routines over time (A relays it, later B relays
+    it, or it is played itself): each wait must register the routine that is playing W at that moment"""
+    flow = rng.random() < 0.3
+    cells = ['flow' if flow else 'cond']
+    nwait = rng.randint(2, 4)
+    wsc = []
+    for j in range(nwait):
+        wsc += [['flowget', 0] if flow and rng.random() < 0.6 else ['wait', 0], ['log', ['str', 20 + j]]]
+    wsc += [['yield', gval(rng)]]
+    defs = [{'kind': 'gen', 'hasin': False, 'script': wsc}]            # routine 0 = W
+    nplayers = rng.randint(2, 3)
+    for i in range(nplayers):
+        sc = [['yield', ['int', rng.choice([0, 0, 1])]]] if rng.random() < 0.5 else []
+        for _ in range(rng.randint(1, 2)):
+            sc += [['relay', 0, ['none']], ['log', ['str', i]]]
+        sc += [['yield', gval(rng)]]
+        defs.append({'kind': 'gen', 'hasin': False, 'script': sc})
+    if rng.random() < 0.4:     # a relay routine in between for one of the players
+        defs.append({'kind': 'gen', 'hasin': False, 'script': [['relay', 0, ['none']], ['relay', 0, ['none']], ['yield', gval(rng)]]})
+        defs[1]['script'] = [['relay', len(defs) - 1, ['none']], ['log', ['str', 7]], ['yield', gval(rng)]]
+    order = list(range(1, nplayers + 1))
+    rng.shuffle(order)
+    ops = []
+    for i in order:
+        ops.append(['call', ['play', i]])
+        ops += [['tick']] * rng.randint(1, 2)
+        x = rng.random()
+        if x < 0.4:
+            ops.append(['call', ['unhang', 0]])
+        elif x < 0.7 and not flow:
+            ops += [['call', ['settest', 0, rng.choice(TRUTHY_TESTS)]], ['call', ['signal', 0]], ['call', ['settest', 0, rng.choice(FALSY_TESTS)]]]
+        ops += [['tick']] * rng.randint(1, 3)
+    if rng.random() < 0.5:
+        ops += [['call', ['play', 0]], ['tick']]                        # W goes on by itself on the clock
+    ops += [['call', ['unhang', 0]]] + [['tick']] * 3
+    return {'defs': defs, 'cells': cells, 'ops': ops, 'mode': 'shared%d' % nplayers}
+
+
 def gfifo(rng):
     """several played routines wait on ONE Condition / FlowVar (some of them twice, via a next() from outside while they
     hang); then it is signalled / unhung / bound, from outside or from a further routine: order and number of resumptions"""
@@ -356,6 +395,9 @@ def gen_cases(ctx, n):
             continue
         if x < 0.28:
             cases.append(gancestor(ctx.rng))
+            continue
+        if x < 0.34:
+            cases.append(gshared(ctx.rng))
             continue
         mode = 'plain' if x < 0.45 else 'cond' if x < 0.78 else 'reentrant'
         cases.append(gcase(ctx.rng, mode))
@@ -497,6 +539,13 @@ def correspond(ctx):
             c.nontriv(strip(k))
     # every second case runs the model with the SMALLEST fuel the termination theorem allows (number of routines + 1,
     # nested_next_terminates_fuel_independent): were the bound wrong, the model would answer RecursionError here
+    # the model-free monitors run on EVERY case (not only when something else failed): some of what they judge
+    # is outside the model (side effects of Routine subclasses on their own state)
+    hits = [(k, c11_monitors.check(strip(k), r)) for k, r in keep]
+    hits = [(k, v) for k, v in hits if v]
+    c.count('monitor-hits', len(hits))
+    if hits:
+        c.failures.extend(monitor_failures(ctx, [k for k, v in hits], [v for k, v in hits]))
     items = [item(k, r['obs'], 'patched', fuel=(len(k['defs']) + 1) if j % 2 else FUEL) for j, (k, r) in enumerate(keep)]
     c.count('fuel:minimal(routines+1)', len(keep) // 2)
     bad, errs = fw.check_shards(ctx, 'hist', HEADER, items, BODY, shard=max(40, len(items) // 16 + 1))
@@ -625,6 +674,11 @@ def search(ctx, failures):
     else:
         cases += gen_cases(ctx, ctx.n(500, 5000))
     vs = violations(ctx, cases)
+    return monitor_failures(ctx, cases, vs)
+
+
+def monitor_failures(ctx, cases, vs):
+    """one shrunk Failure (concrete history) per monitor that fired"""
     by_key = {}
     for k, v in zip(cases, vs):
         for m in v:
